@@ -30,6 +30,8 @@ type UOp struct {
 	Kind string `json:"kind"` // install | get | new | new-during-install | pollnop | other | err
 	U    int    `json:"u"`    // which updater (mod count)
 	Fail bool   `json:"fail"` // install: the builder rejects this version's bytes
+	Back bool   `json:"back"` // install: the service re-activates the previous version instead of a new one
+	Both bool   `json:"both"` // install: the unrelated secret changes in the same poll
 }
 
 type UpdaterCase struct {
@@ -77,6 +79,7 @@ func runC15(t *testing.T, c UpdaterCase) (*h.Violation, h.Info) {
 	var ups []*upd
 	installed := string(valueOf("w", 1))
 	ver := uint32(1)
+	activeVer := ver
 	mk := func(step int, installDuring bool) *h.Violation {
 		u := &upd{}
 		builder := func(b []byte) (*cval, error) {
@@ -85,6 +88,7 @@ func runC15(t *testing.T, c UpdaterCase) (*h.Violation, h.Info) {
 				// a poll installs a newer version while NewUpdater is inside its first build
 				installDuring = false
 				ver++
+				activeVer = ver
 				nb := string(valueOf("w", ver))
 				svc.Set("w", ver, []byte(nb))
 				if err := refresh(); err == nil {
@@ -126,12 +130,23 @@ func runC15(t *testing.T, c UpdaterCase) (*h.Violation, h.Info) {
 	for i, o := range c.Ops {
 		switch o.Kind {
 		case "install":
-			ver++
-			b := string(valueOf("w", ver))
-			if o.Fail {
+			if o.Back && activeVer >= 2 {
+				activeVer-- // an activation backwards: a lower version number, its old bytes
+				info.Class("install-of-a-lower-version")
+			} else {
+				ver++
+				activeVer = ver
+			}
+			b := string(valueOf("w", activeVer))
+			if o.Fail && !o.Back {
 				fails[b] = true
 			}
-			svc.Set("w", ver, []byte(b))
+			svc.Set("w", activeVer, []byte(b))
+			if o.Both {
+				ov, _, _ := svc.Active("o")
+				svc.Set("o", ov+1, valueOf("o", ov+1))
+				info.Class("two-secrets-change-in-one-poll")
+			}
 			if err := refresh(); err != nil {
 				return h.V("harness", "Refresh: %v", err), info
 			}
@@ -260,6 +275,8 @@ var c15 = &h.Campaign[UpdaterCase]{
 			o := UOp{Kind: rapid.SampledFrom([]string{"install", "install", "install", "get", "get", "get", "new", "new-during-install", "pollnop", "other", "err"}).Draw(rt, "kind"), U: rapid.IntRange(0, 3).Draw(rt, "u")}
 			if o.Kind == "install" {
 				o.Fail = rapid.IntRange(0, 3).Draw(rt, "fail") == 0
+				o.Back = rapid.IntRange(0, 4).Draw(rt, "back") == 0
+				o.Both = rapid.IntRange(0, 3).Draw(rt, "both") == 0
 			}
 			return o
 		}), 1, 40).Draw(rt, "ops"), FailWrite: rapid.SampledFrom([][]int{nil, nil, {2}, {2, 3}, {3, 5, 6}, {1, 2, 3, 4, 5, 6, 7, 8, 9}}).Draw(rt, "failwrite")}
